@@ -32,6 +32,9 @@ type simProvider struct {
 	next      *topo
 	nextErr   error // Retrieve fails
 	corrupt   bool  // serve a configuration that does not validate
+	// unbuildable: serve a configuration that validates but cannot be built (a connector used as exporter only): the
+	// failure happens inside service.New
+	unbuildable bool
 	watcher   confmap.WatcherFunc
 	retrieves int
 	shutdowns int
@@ -110,7 +113,7 @@ func (p *simProvider) Retrieve(_ context.Context, _ string, watcher confmap.Watc
 	gen := p.w.Gen
 	p.w.mu.Unlock()
 	p.w.emit("provider-retrieve", "provider", gen, "")
-	p.servedBad = p.nextErr != nil || p.corrupt
+	p.servedBad = p.nextErr != nil || p.corrupt || p.unbuildable
 	if p.nextErr != nil {
 		return nil, p.nextErr
 	}
@@ -128,6 +131,22 @@ func (p *simProvider) Retrieve(_ context.Context, _ string, watcher confmap.Watc
 			pm["exporters"] = append(pm["exporters"].([]any), "exp/undefined")
 			break
 		}
+	}
+	if p.unbuildable {
+		cm, _ := m["connectors"].(map[string]any)
+		if cm == nil {
+			cm = map[string]any{}
+			m["connectors"] = cm
+		}
+		cm["fwd/dangling"] = nil
+		pl := m["service"].(map[string]any)["pipelines"].(map[string]any)
+		keys := make([]string, 0, len(pl))
+		for k := range pl {
+			keys = append(keys, k)
+		}
+		sort.Strings(keys)
+		pm := pl[keys[0]].(map[string]any)
+		pm["exporters"] = append(pm["exporters"].([]any), "fwd/dangling")
 	}
 	return confmap.NewRetrieved(m, confmap.WithRetrievedClose(func(context.Context) error {
 		p.mu.Lock()
@@ -291,7 +310,16 @@ func runC20(r *simkit.Run) {
 	ctx, cancel := context.WithCancel(context.Background())
 	s.cancel = cancel
 	defer cancel()
-	s.run = simkit.Go("Run", func(t *simkit.Task) { t.Err = col.Run(ctx) })
+	s.run = simkit.Go("Run", func(t *simkit.Task) {
+		defer func() {
+			if p := recover(); p != nil {
+				// Run must return an error, whatever the configuration: a panic on its goroutine is reported as such
+				r.Failf("result", "run-panicked", "Run panicked instead of returning: %v", p)
+				t.Err = fmt.Errorf("Run panicked: %v", p)
+			}
+		}()
+		t.Err = col.Run(ctx)
+	})
 	r.Settle()
 	s.sample("start")
 
@@ -306,6 +334,7 @@ func runC20(r *simkit.Run) {
 				simkit.Choice{Name: "config-change", W: 3, Fire: func() { s.configChange(genValid(), 0) }},
 				simkit.Choice{Name: "config-change:invalid", W: 1, Fire: func() { s.configChange(genValid(), 1) }},
 				simkit.Choice{Name: "config-change:start-fails", W: 1, Fire: func() { s.configChange(genValid(), 2) }},
+				simkit.Choice{Name: "config-change:cannot-be-built", W: 1, Fire: func() { s.configChange(genValid(), 3) }},
 				simkit.Choice{Name: "config-watch-error", W: 1, Fire: func() {
 					if s.watchNotify(errors.New("sim: watch failed")) {
 						s.stop("config-watch-error")
@@ -391,6 +420,7 @@ func (s *c20Sim) prepareNext(t *topo, kind int) {
 	defer p.mu.Unlock()
 	p.next = t
 	p.corrupt = false
+	p.unbuildable = false
 	p.nextErr = nil
 	s.w.mu.Lock()
 	delete(s.w.failStartAt, s.w.Gen+1)
@@ -406,6 +436,9 @@ func (s *c20Sim) prepareNext(t *topo, kind int) {
 		s.w.failStartAt[s.w.Gen+1] = k // only the generation served by the next Retrieve
 		s.w.mu.Unlock()
 		s.r.Count("fault.new_config_start_fails")
+	case 3:
+		p.unbuildable = true
+		s.r.Count("fault.new_config_cannot_be_built")
 	}
 }
 
